@@ -69,6 +69,8 @@ def scenarios(draw):
         # gene symbols in lower case (they sort after IsoQuant's own "novel_gene_..." ids)
         for i, g in enumerate(sc["genes"]):
             g["id"] = src.choice(["sox", "tp", "abc", "zfp", "pax"]) + str(i + 1)
+    if annotated and src.bool(0.35):
+        sc["gtf"]["cds"] = True            # CDS records inside the exons, as in every real annotation
     sc["opts"] = common_opts(src, annotated)
     sc.pop("truth", None)
     return sc
